@@ -147,8 +147,8 @@ fn replay(args: &[String]) -> i32 {
     let render_braced = Render { multibyte_e: true, raw_params: false };
     let input = util::open_in(args);
     let chunk = util::opt_usize(args, "--chunk", 200);
-    // group by state
-    let mut groups: BTreeMap<String, (Value, Vec<(Vec<Value>, Value)>)> = BTreeMap::new();
+    // group the raw lines by state (parsed again by the worker that runs them)
+    let mut groups: BTreeMap<String, Vec<String>> = BTreeMap::new();
     let mut skipped = 0usize;
     for line in input.lines() {
         let line = line.expect("read");
@@ -156,19 +156,16 @@ fn replay(args: &[String]) -> i32 {
             continue;
         }
         let v: Value = serde_json::from_str(&line).expect("json");
-        let outs = v["out"].as_array().unwrap();
-        if outs[0]["k"] == "skip" {
+        if v["out"][0]["k"] == "skip" {
             skipped += 1;
             continue;
         }
-        let key = v["st"].to_string();
-        let e = groups.entry(key).or_insert_with(|| (v["st"].clone(), vec![]));
-        e.1.push((v["w"].as_array().unwrap().clone(), v["out"].clone()));
+        groups.entry(v["st"].to_string()).or_default().push(line);
     }
-    let mut jobs: Vec<(&Value, &[(Vec<Value>, Value)])> = vec![];
-    for (_k, (st, cases)) in groups.iter() {
-        for c in cases.chunks(chunk) {
-            jobs.push((st, c));
+    let mut jobs: Vec<&[String]> = vec![];
+    for (_k, lines) in groups.iter() {
+        for c in lines.chunks(chunk) {
+            jobs.push(c);
         }
     }
     let next = AtomicUsize::new(0);
@@ -183,7 +180,10 @@ fn replay(args: &[String]) -> i32 {
                     if j >= jobs.len() || failed.lock().unwrap().is_some() {
                         break;
                     }
-                    let (st, cases) = jobs[j];
+                    let parsed: Vec<Value> = jobs[j].iter().map(|l| serde_json::from_str(l).expect("json")).collect();
+                    let st = &parsed[0]["st"];
+                    let cases: Vec<(Vec<Value>, Value)> =
+                        parsed.iter().map(|v| (v["w"].as_array().unwrap().clone(), v["out"].clone())).collect();
                     // alternate between `$x` and `${x}` renderings
                     let r = if j % 2 == 0 { &render } else { &render_braced };
                     let mut done = 0;
